@@ -18,7 +18,10 @@ Inductive dop :=
 | DTake                    (* the listen loop takes the queued message when none is in flight *)
 | DWrite (k : nat)         (* the transport accepts k more bytes of the message in flight *)
 | DDrop                    (* the listen future is dropped *)
-| DClose.                  (* graceful_shutdown: the message in flight, then the queued one, are written out *)
+| DClose.                  (* graceful_shutdown comes to its end: the message in flight, then the queued one, are written out.
+                              (The call is bounded as a whole, GRACEFUL_SHUTDOWN_TIMEOUT, for a client that takes nothing at all: then
+                              it fails, the connection is dropped as a failed one and what was left is lost with it; that is not a
+                              close "in an orderly way", which is all DClose stands for - see h1_close in Model/ShutdownM.v, C19) *)
 
 Definition dstep (keep : bool) (s : dl) (o : dop) : dl :=
   match o with
